@@ -353,6 +353,8 @@ def _strip_ids(s):
 def task_class(args):
     cid, opts = args
     t0 = time.time()
+    if opts.get("deadline") and t0 > opts["deadline"]:
+        return {"class": cid, "stats": Stats().to_json(), "shapes": 0, "kinds_ok": 0, "kinds_bad": [], "finite": {}, "wall": 0, "skipped": True}
     cls = shapes.class_by_id(cid)
     stats = Stats()
     deadline = t0 + opts["class_seconds"]
@@ -380,6 +382,8 @@ def check(tier):
     t0 = time.time()
     rep = install.install()
     opts = tier_opts(tier)
+    if tier == "thorough":
+        opts["deadline"] = t0 + 25 * 60
     classes = shapes.all_entity_classes()
     reps = shapes.signature_representatives(classes)
     targets = list(reps if tier == "quick" else classes)
